@@ -157,6 +157,31 @@ def check(prop, tier, seed, n_override, do_shrink):
                     found[sig]["detail"] = best["detail"]
                     found[sig]["size"] = best["size"]
 
+    # --- optional per-property extra campaign (C15: coverage-guided fuzzing in the thorough tier)
+    post_info = {}
+    if hasattr(prop, "post"):
+        try:
+            post_info = prop.post(tier, seed) or {}
+        except Exception:
+            print("HARNESS-ERROR property=%s post campaign raised:\n%s" % (pid, traceback.format_exc()))
+            return 2
+        for case in post_info.pop("cases", []):
+            try:
+                r = core.run_case(prop, case)
+            except Exception:
+                print("HARNESS-ERROR property=%s replaying a fuzzer artifact raised:\n%s" % (
+                    pid, traceback.format_exc()))
+                return 2
+            evaluations += 1
+            for sig, detail in r.violations:
+                if sig in known_sigs:
+                    known_hits[sig] = known_hits.get(sig, 0) + 1
+                elif sig not in found:
+                    found[sig] = {"count": 1, "case": case, "detail": detail, "shard": -1,
+                                  "origin": "fuzzer", "size": len(core.canonical_json(case))}
+                else:
+                    found[sig]["count"] += 1
+
     for sig in sorted(found):
         ent = found[sig]
         case = ent["case"]
@@ -198,6 +223,7 @@ def check(prop, tier, seed, n_override, do_shrink):
             "shards": core.NSHARDS,
             "requested_cases": n_total,
             "violating_signatures": {s: v["count"] for s, v in violations.items()},
+            "extra_campaign": post_info,
         },
         "assumptions": list(prop.ASSUMPTIONS),
         "wall_s": round(wall, 2),
